@@ -61,11 +61,18 @@ pub fn wire(ty: u8, fmt: u8, shape: u8, raw: &[u8]) -> Vec<u8> {
     }
 }
 
+/// formats: 0 bincode, 1 JSON text; and three in-memory deserialisers that drive the other visitor paths:
+/// 2 a sequence of u8 with an EXACT size hint (serde::de::value::SeqDeserializer), 3 a serde_json::Value array
+/// (exact size hint too), 4 a byte slice (BytesDeserializer -> visit_bytes). For 2..4 the payload is the
+/// content itself, not a wire encoding.
 fn de<T: DeserializeOwned>(fmt: u8, payload: &[u8]) -> Option<T> {
-    if fmt == 0 {
-        bincode::deserialize(payload).ok()
-    } else {
-        serde_json::from_slice(payload).ok()
+    use serde::de::value::{BytesDeserializer, Error as VErr, SeqDeserializer};
+    match fmt {
+        0 => bincode::deserialize(payload).ok(),
+        1 => serde_json::from_slice(payload).ok(),
+        2 => T::deserialize(SeqDeserializer::<_, VErr>::new(payload.iter().copied())).ok(),
+        3 => serde_json::from_value(serde_json::Value::Array(payload.iter().map(|b| serde_json::Value::from(*b)).collect())).ok(),
+        _ => T::deserialize(BytesDeserializer::<VErr>::new(payload)).ok(),
     }
 }
 
@@ -131,8 +138,8 @@ pub fn exec(op: &str, a: &[Vec<u8>]) -> Out {
         }
         // [type, format, shape, raw content]
         "sd.de" => {
-            let (ty, fmt, shape) = (a[0][0], a[1][0] & 1, a[2][0]);
-            let p = wire(ty, fmt, shape, &a[3]);
+            let (ty, fmt, shape) = (a[0][0], a[1][0] % 5, a[2][0]);
+            let p = if fmt >= 2 { a[3].clone() } else { wire(ty, fmt, shape, &a[3]) };
             match ty {
                 0 => dez!(fmt, &p, Scalar, |x: &Scalar| x.to_bytes().to_vec()),
                 1 => dez!(fmt, &p, EdwardsPoint, |x: &EdwardsPoint| x.compress().to_bytes().to_vec()),
